@@ -26,6 +26,7 @@ def gen(ch, tier):
                 big=65536 if tier == 'quick' else 262144, max_segments=300 if tier == 'quick' else 800)
     # generator restriction for masking (DESIGN 7.1): zero-length bundles only in a share of runs
     prof['allow_zero'] = ch.coin('allow0', 1, 8)
+    prof['modulate'] = ch.coin('modulate', 1, 3)
     return tcpcl_pair.gen_plan(ch, prof)
 
 
